@@ -4,6 +4,7 @@
 From Coq Require Import List ZArith NArith String Bool.
 Import ListNotations.
 From Verif Require Import Common.V Check.C37Media1.
+From Verif Require Check.C37Media2.
 Open Scope string_scope.
 
 Definition norm_item (v : V) : V :=
@@ -24,4 +25,10 @@ Definition run (c : string * string * Z) : V :=
   else if String.eqb reader "h264sei" then norm (run_h264reader_sei hex)
   else if String.eqb reader "h265" then norm (run_h265reader hex)
   else if String.eqb reader "h265sei" then norm (run_h265reader_sei hex)
+  else if String.eqb reader "ivf" then C37Media2.run_ivfreader hex
+  else if String.eqb reader "oggcrc" then C37Media2.run_oggreader_checksum hex
+  else if String.eqb reader "oggnocrc" then C37Media2.run_oggreader_nochecksum hex
+  else if String.eqb reader "oggnew" then C37Media2.run_oggreader_newwith hex
+  else if String.eqb reader "opushead" then C37Media2.run_parse_opus_head hex
+  else if String.eqb reader "opustags" then C37Media2.run_parse_opus_tags hex
   else VL [VS "no-model"].
